@@ -434,7 +434,7 @@ func init() {
 			"malformed number shapes (0x, 1e+, 09, 1a) are only required to tile",
 		},
 		Strata: []*fw.Stratum{
-			{Name: "bytes", Quick: 600000, Thorough: 5000000, Run: func(t *fw.T) {
+			{Name: "bytes", Quick: 1200000, Thorough: 5000000, Run: func(t *fw.T) {
 				r := t.Rand()
 				n := r.IntN(40)
 				if r.IntN(20) == 0 {
@@ -447,7 +447,7 @@ func init() {
 					t.Feature("byte-values-seen", fmt.Sprintf("%02x", src[i]))
 				}
 			}},
-			{Name: "soup", Quick: 800000, Thorough: 6000000, Run: func(t *fw.T) {
+			{Name: "soup", Quick: 1600000, Thorough: 6000000, Run: func(t *fw.T) {
 				r := t.Rand()
 				src := genSoup(r, 1+r.IntN(14))
 				lexCase(t, src, "soup")
@@ -466,7 +466,7 @@ func init() {
 				t.Distinct(src)
 				t.Count("prefixes", len(src)+1)
 			}},
-			{Name: "programs", Quick: 20000, Thorough: 150000, Run: func(t *fw.T) {
+			{Name: "programs", Quick: 60000, Thorough: 200000, Run: func(t *fw.T) {
 				r := t.Rand()
 				g := gen.NewSyn(r, gen.SynOpts{ExprDepth: 2 + r.IntN(4), StmtDepth: 1 + r.IntN(3), MaxStmts: 1 + r.IntN(5), NumDot: true})
 				prog := g.Program()
